@@ -122,11 +122,11 @@ theorem handlePendingTasks_good {j0 : JobObj} {d : PIndex} (s : Sys) (jo : JobOb
         (try simp only)
         exact ite_some_none_gk ok (markDeleted_gk' rj _ _ (fun r => ⟨rfl, rfl, rfl, rfl, rfl, rfl⟩) hg)
 
-theorem handleKillJob_good {j0 : JobObj} {d : PIndex} (s : Sys) (rj : Job) (tasks : List Task)
-    (hg : Good j0 d rj) : OutGK j0 d rj (handleKillJob s rj tasks).2 := by
+theorem handleKillJob_good {j0 : JobObj} {d : PIndex} (s : Sys) (jo : JobObj) (rj : Job) (tasks : List Task)
+    (hg : Good j0 d rj) : OutGK j0 d rj (handleKillJob s jo rj tasks).2 := by
   unfold handleKillJob
   split
-  · exact some_gk hg
+  · split <;> exact some_gk hg
   · (try simp only)
     split
     · exact some_gk hg
@@ -189,9 +189,9 @@ theorem syncJobTasks_good {j0 : JobObj} (s : Sys) (jo : JobObj) (hwf : WF2 j0 s.
     | some rj3 =>
       (try simp only)
       have hgk3 : GK j0 s.d jo.job rj3 := (hgk1.trans h2).trans (h3 rj3 rfl)
-      have h4 := handleKillJob_good s3 rj3 tasks1 hgk3.1
+      have h4 := handleKillJob_good s3 jo rj3 tasks1 hgk3.1
       have hm4 := (handleKillJob_spec s3 jo s rj3 tasks1).1
-      generalize handleKillJob s3 rj3 tasks1 = r4 at h4 hm4 ⊢
+      generalize handleKillJob s3 jo rj3 tasks1 = r4 at h4 hm4 ⊢
       obtain ⟨s4, o4⟩ := r4
       cases o4 with
       | none => (try simp only); intro _ h; cases h
@@ -228,15 +228,17 @@ theorem handleFinalizer_good {j0 : JobObj} (s : Sys) (jo : JobObj) (rj : Job) (f
   · split
     · intro h; cases h; exact GK.refl hg
     · (try simp only)
-      have htf := tasksForRefsConfirmed_good hp rj.status.tasks hg.nodup
+      have htf : TasksGood j0 s.d (finalizerTasks s jo rj) := by
+        unfold finalizerTasks
+        exact adoptUnrecordedTasks_good s _ _ hp (tasksForRefsConfirmed_good hp rj.status.tasks hg.nodup)
       split
       · have hk := foldl_deletedStatus_gk (j0 := j0) (d := s.d)
-          { state := .terminated, result := .killed, reason := "JobDeleted" } (tasksForRefsConfirmed s rj.status.tasks) rj hg
-        have h1 := updateTaskRefStatus_gk s (jobKey jo) _ (tasksForRefsConfirmed s rj.status.tasks) hk.1 htf
-        generalize updateTaskRefStatus s (jobKey jo) _ (tasksForRefsConfirmed s rj.status.tasks) = r1 at h1 ⊢
+          { state := .terminated, result := .killed, reason := "JobDeleted" } (finalizerTasks s jo rj) rj hg
+        have h1 := updateTaskRefStatus_gk s (jobKey jo) _ (finalizerTasks s jo rj) hk.1 htf
+        generalize updateTaskRefStatus s (jobKey jo) _ (finalizerTasks s jo rj) = r1 at h1 ⊢
         obtain ⟨s1, rj2⟩ := r1
         (try simp only)
-        generalize deleteTasks s1 (tasksForRefsConfirmed s rj.status.tasks) false = r2
+        generalize deleteTasks s1 (finalizerTasks s jo rj) false = r2
         obtain ⟨s2, ok⟩ := r2
         (try simp only)
         intro h
